@@ -10,6 +10,9 @@ use std::hash::{Hash, Hasher};
 
 #[derive(Clone, Copy, Default, Debug)]
 pub struct Props {
+    /// only the transitions of this state are of interest (family EpPlayed: the root is just the
+    /// launch pad of the double push)
+    pub skip_state_oracles: bool,
     /// family EpPlayed: only double pawn pushes are played from the root
     pub double_push_only: bool,
     /// C02: compare Debug renderings between move_new / move_mut / move_into on every transition
